@@ -101,7 +101,7 @@ Record face := Face {
 }.
 
 (* which exceptions the [except] clause of StreamFace.run lists (reflected from the source into
-   Generated/ReceiveGen.v; [run_cfg_fixed] is the text as of this tree) *)
+   Generated/ReceiveGen.v and compared in Proofs/ReceiveBridge.v; [run_cfg_src] is the text as of this tree) *)
 Record run_cfg := RunCfg { catch_incomplete : bool; catch_reset : bool }.
 Definition run_cfg_src : run_cfg := RunCfg true true.
 
@@ -180,12 +180,19 @@ Fixpoint run_events (cfg : run_cfg) (f : face) (evs : list event) : face * list 
       (f2, out :: outs)
   end.
 
+(* ---- except clauses --------------------------------------------------------------------------------- *)
+(* isinstance(e, c) for the classes of [err]: UnicodeDecodeError is a ValueError *)
+Definition err_isa (e c : err) : bool :=
+  err_eqb e c || (err_eqb e EUnicode && err_eqb c EValue).
+(* does `except tuple:` catch e *)
+Definition catches (tuple : list err) (e : err) : bool := existsb (err_isa e) tuple.
+
 (* ---- UdpFace.PacketHandler.datagram_received ------------------------------------------------------ *)
-(* one datagram = at most one callback, with the datagram as it is.  [guarded] = the try/except
-   around parse_tl_num (commit 5f0a2b3); without it the exception leaves the protocol callback
-   and reaches the event loop's exception handler. *)
-Definition datagram_received (guarded : bool) (data : bytes) : res (option pkt) :=
+(* one datagram = at most one callback, with the datagram as it is.  [caught] = the except tuple of the
+   try around parse_tl_num ([] = no try: before commit 5f0a2b3); an exception that is not caught leaves
+   the protocol callback and reaches the event loop's exception handler. *)
+Definition datagram_received (caught : list err) (data : bytes) : res (option pkt) :=
   match tl_dec data with
   | Ok (typ, _) => Ok (Some (typ, data))
-  | Err e => if guarded && (err_eqb e EIndex || err_eqb e EStruct) then Ok None else Err e
+  | Err e => if catches caught e then Ok None else Err e
   end.
